@@ -179,6 +179,11 @@ def r4_cache_purity(ctx):
                 rg, cg = mem(P, eg.value)
                 later = [x for x in P.stores() if x.target in rg or mem(P, x.target)[0] & rg]
                 shared = ra & rg
+                for fk, fv in P.fact_order:
+                    # the path itself asked numpy whether the two share storage and was told no
+                    if fv is False and fk[0] == "truth" and fk[1][0] == "call" and fk[1][1] in ("np.shares_memory", "np.may_share_memory") \
+                            and len(fk[1][2]) == 2 and ea.value in fk[1][2] and (eg.value in fk[1][2] or set(mem(P, [x for x in fk[1][2] if x != ea.value][0])[0]) >= rg):
+                        shared = set()
                 A.req(key, (not shared) if (ca or not shared) else None, ea.node,
                       f"avterm is `{show(P.norm(ea.value))}`, a view of genforce" if shared else None)
     A.req("_pre_calcs: effect rule bound", nst > 0, pc, nontrivial=False)
@@ -208,6 +213,14 @@ def r4_cache_purity(ctx):
                         and (g[6] == ("s", save) or (g[6][0] == "new" and g[6][1] == "dict"))
                 A.req("apply_uf: _pre_calcs receives the unscaled sol, the matrices, nrb, rfmodes and the cache", ok, c.node,
                       [show(P.norm(x)) if x is not None else None for x in got])
+        # a path that ends in a certain KeyError on a cache dict the call created itself: the cache is read before _pre_calcs filled it
+        for P in getattr(I, "all_paths", ()):
+            if P.status != "raise":
+                continue
+            for e in P.events:
+                if e.kind == "keyerror" and P.obj(e.target) is not None and P.obj(e.target).kind == "dict" and not P.calls("_pre_calcs"):
+                    A.req("apply_uf: _pre_calcs fills the cache (once) before it is read when it has no 'genforce' entry", False, e.node,
+                          f"`{show(P.norm(e.index))}` is looked up in a cache dict the call has just created empty, and _pre_calcs was not called (KeyError)")
     A.req("apply_uf: effect rule bound", nst > 0, ctx.src.func(EVT, "apply_uf"), nontrivial=False)
     A.flush(ctx.src.func(EVT, "apply_uf"))
     # frf_apply_uf works on a deep copy
@@ -380,7 +393,7 @@ def r5_documented_factors(ctx):
             ("d_dynamic", "EL"): -euf * duf * AV / K,
             ("d_static", "EL"): euf * suf * GF / K, ("d_static", "RF"): euf * suf * GF / K,
         }
-        known = {f"{sol}.{x}" for x in ("a", "v", "d", "pg")} | {"ruf", "euf", "duf", "suf", f"{save}['genforce']", f"{save}['avterm']", k, m, b, nrb}
+        known = {f"{sol}.{x}" for x in ("a", "v", "d", "pg")} | {"ruf", "euf", "duf", "suf", f"{save}['genforce']", f"{save}['avterm']", f"{save}['lup_elastic']", f"{save}['lup_rf']", k, m, b, nrb}
         A = Agg(ctx)
         npg = 0
         seen, blind = set(), set()
@@ -774,6 +787,17 @@ class Spaces:
             if n == "mul" and any(x and x[1] in ("N", "NR", "EL", "RF") for x in ts) and any(x and x[1] == "T" for x in ts):
                 self.bad.append(("rank", f"`{show(P.norm(t))}`: elementwise product of a full matrix block with the solution (a matrix product is needed)", self.node))
             if n in ("add", "sub", "mul", "div"):
+                two_d = [x for x in ts if x and x[1] != "-"]
+                if two_d and any(x and x[1] == "-" for x in ts):
+                    # broadcasting: the only axis of a 1-D operand lines up with the columns of a 2-D operand
+                    cols = [x[1] for x in two_d if x[1]] + [x[0] for x in ts if x and x[1] == "-" and x[0]]
+                    if len(cols) >= 2 and any(not self.same(cols[0], c_) and "T" not in (cols[0], c_) for c_ in cols[1:]):
+                        self.bad.append(("elementwise-space", f"`{show(P.norm(t))}`: a vector over space {cols[-1]} is broadcast along columns of space {cols[0]}", self.node))
+                    elif len(cols) >= 2 and all(self.same(cols[0], c_) for c_ in cols[1:]):
+                        self.checked.append(show(P.norm(t)))
+                    r0 = next((x[0] for x in two_d if x[0]), None)
+                    c0 = next((x[1] for x in two_d if x[1]), None)
+                    return (r0, c0) if (r0 or c0) else None
                 rows = [x[0] for x in ts if x and x[0]]
                 if len(rows) >= 2:
                     if any(not self.same(rows[0], r) for r in rows[1:]):
@@ -850,6 +874,18 @@ def _parts(t, out=None):
     return out
 
 
+def _subst(t, mp):
+    if t in mp:
+        return mp[t]
+    if not isinstance(t, tuple) or not t or t[0] in ("c", "s", "g", "fn", "ref"):
+        return t
+    if t[0] == "call":
+        return ("call", t[1], tuple(_subst(a, mp) for a in t[2]), tuple((k, _subst(v, mp)) for k, v in t[3]))
+    if t[0] == "op":
+        return op(t[1], *[_subst(a, mp) for a in t[2:]])
+    return (t[0],) + tuple(_subst(a, mp) if isinstance(a, tuple) else a for a in t[1:])
+
+
 def _has_call(t):
     return any(x[0] == "call" for x in _parts(t))
 
@@ -873,20 +909,35 @@ def r6_exits_and_typing(ctx):
                 A.req(key, False if not unfollowed_writes(P, P.ret) else None, fn, "exit without solout.d / d_static / d_dynamic")
                 continue
             sd = [e for e in P.setattrs(P.ret, "d")]
-            last = max([e.seq for e in P.stores() if e.target in (ds, dd)] + [0])
-            when = sd[-1].seq if sd else 0
-            if P.obj(d) is not None and P.obj(d).kind == "arr" and d not in (ds, dd):
-                # d is an array of its own that is filled as a whole (np.add(ds, dd, out=d), d[...] = ds + dd): its content is the last
-                # whole-array store, formed when that store is made
+            read = {ds: sd[-1].seq if sd else 0, dd: sd[-1].seq if sd else 0}        # when each part is read to form d
+            od = P.obj(d)
+            if od is not None and od.kind == "arr" and d not in (ds, dd):
+                # d is an array of its own: what it holds is what it was created from (a copy reads its source then) followed by the
+                # whole-array stores into it, each of which may read d itself (`d += x`, np.add(a, b, out=d), d[...] = a + b)
                 whole = [e for e in P.stores() if e.target == d and _region(P.norm(e.index), "", "", "") == ":"]
                 part = [e for e in P.stores() if e.target == d and e not in whole]
-                if whole and not any(e.seq > whole[-1].seq for e in part):
-                    v = whole[-1].value
-                    if v[0] == "op" and v[1] == "add" and len(v) == 4 and ("idx", d, whole[-1].index) in v[2:]:
-                        v = None            # d += ...: not a sum formed from the two parts alone
-                    if v is not None:
-                        d, when = v, whole[-1].seq
-            ok = d == op("add", ds, dd) and bool(sd) and when > last
+                og = od.origin
+                cont = og[2][0] if (og[0] == "call" and og[1] in (".copy", "np.array", "np.copy", "copy.copy") and og[2]) else None
+                read = {}
+                if cont is not None:
+                    for p_ in (ds, dd):
+                        if p_ in _parts(cont):
+                            read[p_] = getattr(od, "seq", 0)
+                if not part:
+                    for e in whole:
+                        v = e.value
+                        for p_ in (ds, dd):
+                            if p_ in _parts(v):
+                                read.setdefault(p_, e.seq)
+                        if d in _parts(v) or ("idx", d, e.index) in _parts(v):
+                            v = _subst(v, {d: cont, ("idx", d, e.index): cont}) if cont is not None else None
+                        cont = v
+                        if cont is None:
+                            break
+                    if cont is not None:
+                        d = cont
+            last_ok = all(not any(e.seq > read.get(p_, 0) for e in P.stores() if e.target == p_) for p_ in (ds, dd))
+            ok = d == op("add", ds, dd) and bool(sd) and last_ok
             if not ok and d != op("add", ds, dd) and _has_call(d) and ds in _parts(d) and dd in _parts(d):
                 ok = None           # both parts go into a construction that is not understood
             A.req(key, ok, sd[-1].node if sd else fn, show(P.norm(d)))
